@@ -100,8 +100,10 @@ def compensate_arg_to_param_edge():
     """Compensation switch (classification only): GlobalStmtStates.add_arg_to_param_edge looks for the argument by scanning the
     whole entry-point SFG for a STATE node with the argument's index and takes the first parent symbol that is used in any call
     statement; when the argument's state is a copy made at the call (STATE_COPY, which taint propagation does not follow) the
-    only parent symbol is the parameter itself and no edge is made.  The switch additionally adds the SYMBOL_FLOW edge from the
-    argument symbol(s) of the current call statement that point to the state the mapping hands over."""
+    only parent symbol is the parameter itself and no edge is made.  In exactly that situation (no parent symbol of the indexed
+    STATE is an argument of the current call) the switch adds the SYMBOL_FLOW edge from the argument symbol(s) of the current
+    call statement that point to the state the mapping hands over; where the original search could have found the argument the
+    switch does nothing, so a regression of the search itself is not masked."""
     import lian.core.global_stmt_states as gss
     from lian.common_structs import SFGNode, SFGEdge
     from lian.config.constants import SFG_NODE_KIND, SFG_EDGE_KIND
@@ -115,6 +117,7 @@ def compensate_arg_to_param_edge():
             g = self.sfg.graph
             target = SFGNode(node_type=SFG_NODE_KIND.SYMBOL, def_stmt_id=parameter_name_symbol.stmt_id, index=status.defined_symbol,
                              node_id=parameter_name_symbol.symbol_id, name=parameter_name_symbol.name, context=ctx)
+            arg_syms = []
             for stmt_node in [n for n in g.nodes if n.node_type == SFG_NODE_KIND.STMT and n.def_stmt_id == call_stmt_id]:
                 for node in list(g.predecessors(stmt_node)):
                     w = g.get_edge_data(node, stmt_node)["weight"]
@@ -122,7 +125,18 @@ def compensate_arg_to_param_edge():
                         continue
                     # the argument symbol is the one that points to the state this mapping hands over
                     if any(x.node_type == SFG_NODE_KIND.STATE and x.node_id == each_pair.arg_state_id for x in g.successors(node)):
-                        self.sfg.add_edge(node, target, SFGEdge(edge_type=SFG_EDGE_KIND.SYMBOL_FLOW, stmt_id=parameter_name_symbol.stmt_id))
+                        arg_syms.append(node)
+            # parents the original search looks at: symbols above the STATE node(s) with the argument's index
+            parents = set()
+            for st in [n for n in g.nodes if n.node_type == SFG_NODE_KIND.STATE and n.index == each_pair.arg_index_in_space]:
+                for par in g.predecessors(st):
+                    if par.node_type == SFG_NODE_KIND.SYMBOL:
+                        parents.add(par)
+                    elif par.node_type == SFG_NODE_KIND.STATE:
+                        parents.update(pp for pp in g.predecessors(par) if pp.node_type == SFG_NODE_KIND.SYMBOL)
+            if not any(a in parents for a in arg_syms):
+                for node in arg_syms:
+                    self.sfg.add_edge(node, target, SFGEdge(edge_type=SFG_EDGE_KIND.SYMBOL_FLOW, stmt_id=parameter_name_symbol.stmt_id))
         except Exception:
             pass
     gss.GlobalStmtStates.add_arg_to_param_edge = patched
@@ -130,8 +144,8 @@ def compensate_arg_to_param_edge():
 
 COMPENSATIONS = {"state-id-taints-symbol-with-equal-id": compensate_state_id_as_symbol_id,
                  "from-code-sink-rule": compensate_from_code_sink_unit,
-                 "argument-to-parameter-edge-misplaced": compensate_arg_to_param_edge}
-C10_SWITCHES = ("argument-to-parameter-edge-misplaced",)
+                 "argument-to-parameter-edge-missing-for-copied-state": compensate_arg_to_param_edge}
+C10_SWITCHES = ("argument-to-parameter-edge-missing-for-copied-state",)
 
 
 def run_lian_case(case, ruleset, tag, compensate=()):
@@ -338,11 +352,20 @@ def generalise(g, atom_chain):
         if not cands or (dim == "layout" and relevant.get("imp")):
             continue
         swap = cands[0]
-        if dim in ("sk", "tk") and cfg["chain"]:
-            # the reference kind must itself be healthy (its direct flow is reported), else nothing can be concluded
+        if dim in ("sk", "tk"):
+            # the reference kind must itself be healthy (its direct flow to / from another reference kind is reported),
+            # else nothing can be concluded from swapping it in
             swap = None
             for cand in cands:
-                ok = yield norm_gadget(dict(cand, chain=[], layout=[0]))
+                if dim == "sk":
+                    partners = [dict(tk=t, pos=0, twist=None, snk_mode="base") for t in ("call", "mcall")]
+                else:
+                    partners = [dict(sk="param", place="func", src_mode="base"), dict(sk="mcall", src_mode="base")]
+                ok = None
+                for pt in partners:
+                    ok = yield norm_gadget(dict(cand, chain=[], layout=[0], **pt))
+                    if ok is True:
+                        break
                 if ok is True:
                     swap = cand
                     break
